@@ -146,7 +146,14 @@ def _datasets(cfg, dseed):
         if cfg.get("feat") == "permuted":
             df = pd.DataFrame({"dim_0": cells, "dim_1": [pd.Series(rng.normal(3, 1, 6)) for _ in range(n)], "extra": [pd.Series(rng.normal(9, 1, 6)) for _ in range(n)], "target": y})
         if cfg["cv"].startswith("presplit"):
-            df.index = ["train"] * (n // 2) + ["test"] * (n - n // 2)
+            # the predefined split is carried by the row labels, in any arrangement: train rows first, interleaved, or test rows first
+            lab = ["train"] * (n // 2) + ["test"] * (n - n // 2)
+            arr_ = (dseed + d) % 3
+            if arr_ == 1:
+                lab = [("train" if i % 2 == 0 else "test") for i in range(n)]
+            elif arr_ == 2:
+                lab = lab[::-1]
+            df.index = lab
         out.append(RAMDataset(df, "data%d" % d))
     return out
 
